@@ -48,6 +48,7 @@ typedef enum { T_UNUSED = 0, T_RUNNABLE, T_BLK_MUTEX, T_BLK_COND, T_BLK_JOIN, T_
 typedef struct {
     tstate st; pthread_t real; sem_t sem; const void* waitobj; int waitthread; long prio;
     void* (*fn)(void*); void* arg; void* ret; const char* label; int reaped;
+    long points, stallAt; uint64_t stallLen, stallUntil;       /* injected long preemption of this thread (uniform mode) */
 } sthread;
 static sthread T[MAXT]; static int nT; static __thread int self = -1;
 static volatile int g_active; static int g_mode, g_pctDepth; static uint64_t g_steps, g_limit, g_hash, g_expected;
@@ -117,7 +118,13 @@ static void pick_and_switch(int me)
                 next = run[0]; for (int i = 1; i < nr; i++) if (T[run[i]].prio > T[next].prio) next = run[i]; } }
         else g_samePick = 0;
         g_lastPick = next;
-    } else next = run[rnd() % (uint64_t)nr];
+    } else {
+        /* long preemptions: a thread may lose the processor for a long stretch at an arbitrary point (legal, and what reorders
+         * "who reaches the critical section first"); stalled threads are skipped while somebody else can run */
+        if (me >= 0 && T[me].st == T_RUNNABLE) { T[me].points++; if (T[me].points == T[me].stallAt) T[me].stallUntil = g_steps + T[me].stallLen; }
+        int awake[MAXT], na = 0; for (int i = 0; i < nr; i++) if (T[run[i]].stallUntil <= g_steps) awake[na++] = run[i];
+        next = na ? awake[rnd() % (uint64_t)na] : run[rnd() % (uint64_t)nr];
+    }
     if (next == me) return;
     if (me >= 0 && T[me].st == T_RUNNABLE) g_res.preemptions++;
     sem_post(&T[next].sem);
@@ -175,6 +182,7 @@ int __wrap_pthread_create(pthread_t* th, const pthread_attr_t* attr, void* (*fn)
     int const t = nT++;
     T[t].st = T_RUNNABLE; T[t].fn = fn; T[t].arg = arg; T[t].label = NULL; T[t].reaped = 0; sem_init(&T[t].sem, 0, 0);
     T[t].prio = g_pctDepth + 1 + (long)(rnd() % 1000);
+    T[t].points = 0; T[t].stallUntil = 0; T[t].stallAt = (rnd() % 3 == 0) ? 1 + (long)(rnd() % 60) : -1; T[t].stallLen = 20 + rnd() % 3000;
     {   int const r = __real_pthread_create(&T[t].real, attr, trampoline, (void*)(intptr_t)t);
         if (r) { nT--; return r; } }
     *th = T[t].real; ev(me, 1, t);
